@@ -33,6 +33,9 @@ func caseTree(c *core.Ctx, g *gen.Gen, maxDepth int) *gen.Node {
 	if c.Case < gen.SweepSize() {
 		return g.Sweep(c.Case)
 	}
+	if c.Tier == "thorough" && c.Case%4 == 3 {
+		maxDepth += 3 // deeper trees in a quarter of the thorough cases
+	}
 	return g.Tree(1 + c.R.Intn(maxDepth))
 }
 
